@@ -238,7 +238,7 @@ theorem close_linked {ctxs0 : List Ctx} {a : Args} {c : Conn} {pending : List Ob
   · exact ⟨c, by simp [close, finallyClose, he], hc, SameEnv.refl c⟩
   · subst hx
     have hcl := stepClose_linked c.srv ctxs0 (theCtx a i d) i ok.enabled hc rfl hf
-    refine ⟨{ c with srv := { c.srv with ctxs := ctxs0 }, log := c.log ++ [(.close, none)] }, ?_, rfl, rfl, rfl, rfl⟩
+    refine ⟨{ c with srv := { c.srv with ctxs := ctxs0 }, log := c.log ++ [(.close (some i), none)] }, ?_, rfl, rfl, rfl, rfl⟩
     simp [close, finallyClose, he, row_closes, doClose, hcl, outErr]
 
 /-- C14's `stepOpen` with default session parameters (how `srvOpen` calls it) is the plain slicing step -/
@@ -267,6 +267,22 @@ theorem maxPos_of_validate {a : Args} (h : validate a = none) : 0 < maxOf a.max 
       simp [hm, validateMax] at h
       simp [maxOf]; omega
 
+theorem openParamErr_none {a : Args} (h : openParamErr a = none) : typeBad a = false ∧ serverParamErr a = none := by
+  unfold openParamErr at h
+  cases ht : typeBad a with
+  | true => simp [ht] at h
+  | false =>
+    simp only [ht, Bool.false_eq_true, if_false] at h
+    cases hs : serverParamErr a with
+    | none => exact ⟨rfl, rfl⟩
+    | some e => simp [hs] at h
+
+/-- an argument the traditional tail does not reject is not one of the type-checked pull-only arguments -/
+theorem typeBad_of_not_reject {a : Args} (h : fallbackReject a = false) : typeBad a = false := by
+  cases hf : a.fam <;>
+    simp [fallbackReject, hf, Family.row, Family.idx, Pywbem.Generated.IterOps.rows, List.getD] at h <;>
+    simp [typeBad, hf, h]
+
 /-- the connection after a successful Open (flag set to True) with server state `s'` -/
 def afterOpen (c : Conn) (a : Args) (s' : State) : Conn :=
   { srv := s', flags := setFlag c.flags a.fam (some true), log := c.log ++ [(.open a.fam, none)] }
@@ -280,14 +296,15 @@ theorem start_pull {c : Conn} {a : Args} (hv : validate a = none) (hu : usePull 
       c1.srv.disabled = c.srv.disabled := by
   have hm := maxPos_of_validate hv
   have hb : badMax (some (maxOf a.max)) = false := by simp [badMax]; omega
+  obtain ⟨htb, hsp⟩ := openParamErr_none hp
   by_cases hlen : a.tradObjs.length ≤ (maxOf a.max).toNat
   · refine ⟨afterOpen c a c.srv, a.tradObjs, true, none, ?_, Or.inl ⟨rfl, rfl, rfl⟩, ⟨hd, hns, hm⟩, rfl, rfl, rfl⟩
-    simp [start, hv, hu, doOpen, srvOpen, hd, hns, hp, ht, stepOpen_default, hb, effMax, hlen, afterOpen, outErr]
+    simp [start, hv, hu, doOpen, srvOpen, hd, hns, htb, hsp, ht, stepOpen_default, hb, effMax, hlen, afterOpen, outErr]
   · refine ⟨afterOpen c a (openedState c.srv (openKind a.fam) a.ns a.tradObjs (some (maxOf a.max))),
       a.tradObjs.take (maxOf a.max).toNat, false, some c.srv.nextId, ?_,
       Or.inr ⟨rfl, c.srv.nextId, a.tradObjs.drop (maxOf a.max).toNat, rfl, ?_, ?_, ?_⟩,
       ⟨hd, hns, hm⟩, rfl, rfl, rfl⟩
-    · simp [start, hv, hu, doOpen, srvOpen, hd, hns, hp, ht, stepOpen_default, hb, effMax, hlen, afterOpen, outErr,
+    · simp [start, hv, hu, doOpen, srvOpen, hd, hns, htb, hsp, ht, stepOpen_default, hb, effMax, hlen, afterOpen, outErr,
         openedState]
     · simp [afterOpen, openedState, theCtx, hk, effMax]
     · intro y hy; have := hinv.below y hy; omega
@@ -319,10 +336,10 @@ def afterLearn (c : Conn) (a : Args) (code : Nat) : Conn :=
   { c with flags := setFlag c.flags a.fam (some false), log := c.log ++ [(.open a.fam, some (.cimError code))] }
 
 theorem start_learn {c : Conn} {a : Args} (hv : validate a = none) (hf : c.flags a.fam = none)
-    (hd : c.srv.disabled = true) :
+    (hd : c.srv.disabled = true) (htb : typeBad a = false) :
     start c a = fallbackStart (afterLearn c a CIM_ERR_NOT_SUPPORTED) a := by
   have hl : isLearnCode a.fam CIM_ERR_NOT_SUPPORTED = true := (learn_iff _ _).mpr (Or.inl rfl)
-  simp [start, hv, hf, usePull, doOpen, srvOpen, hd, handleErr, learns, hl, finallyClose, afterLearn, outErr]
+  simp [start, hv, hf, usePull, doOpen, srvOpen, htb, hd, handleErr, learns, hl, finallyClose, afterLearn, outErr]
 
 theorem takeN_fallback (c : Conn) : ∀ (k : Nat) (pending : List Obj),
     (k ≤ pending.length → takeN c (.fallback pending) k = (c, .fallback (pending.drop k), pending.take k, none)) ∧
@@ -504,18 +521,18 @@ theorem finallyClose_eos (c : Conn) (f : Family) (ctx : Option Nat) : finallyClo
 theorem finallyClose_found (c : Conn) (f : Family) (i : Nat) (y : Ctx) (hd : c.srv.disabled = false)
     (hl : lookup c.srv.ctxs i = some y) :
     finallyClose c f false (some i) =
-      ({ c with srv := { c.srv with ctxs := remove c.srv.ctxs i }, log := c.log ++ [(.close, none)] }, none) := by
+      ({ c with srv := { c.srv with ctxs := remove c.srv.ctxs i }, log := c.log ++ [(.close (some i), none)] }, none) := by
   simp [finallyClose, row_closes, doClose, stepClose, hd, hl, outErr]
 
 theorem finallyClose_missing (c : Conn) (f : Family) (i : Nat) (hd : c.srv.disabled = false)
     (hl : lookup c.srv.ctxs i = none) :
     finallyClose c f false (some i) =
-      ({ c with log := c.log ++ [(.close, some (.cimError CIM_ERR_INVALID_ENUMERATION_CONTEXT))] },
+      ({ c with log := c.log ++ [(.close (some i), some (.cimError CIM_ERR_INVALID_ENUMERATION_CONTEXT))] },
        some (.cimError CIM_ERR_INVALID_ENUMERATION_CONTEXT)) := by
   simp [finallyClose, row_closes, doClose, stepClose, hd, hl, outErr]
 
 theorem finallyClose_noctx (c : Conn) (f : Family) :
-    finallyClose c f false none = ({ c with log := c.log ++ [(.close, some .valueError)] }, some .valueError) := by
+    finallyClose c f false none = ({ c with log := c.log ++ [(.close none, some .valueError)] }, some .valueError) := by
   simp [finallyClose, row_closes, doClose, stepClose, outErr]
 
 theorem finallyClose_table (c : Conn) (f : Family) (eos : Bool) (ctx : Option Nat)
@@ -656,20 +673,22 @@ theorem srvOpen_cases (s : State) (a : Args) :
     srvOpen s a = (openedState s (openKind a.fam) a.ns a.tradObjs (some (maxOf a.max)),
       .batch (a.tradObjs.take (effMax (some (maxOf a.max)))) false (some s.nextId)) := by
   unfold srvOpen
+  by_cases h0 : typeBad a = true
+  · left; exact ⟨.typeError, by simp [h0]⟩
   by_cases h1 : s.disabled = true
-  · left; exact ⟨.cimError CIM_ERR_NOT_SUPPORTED, by simp [h1]⟩
+  · left; exact ⟨.cimError CIM_ERR_NOT_SUPPORTED, by simp [h0, h1]⟩
   by_cases h2 : a.ns ∈ s.nss
-  · cases h3 : openParamErr a with
-    | some e => left; exact ⟨.cimError e, by simp [h1, h2, h3]⟩
+  · cases h3 : serverParamErr a with
+    | some e => left; exact ⟨.cimError e, by simp [h0, h1, h2, h3]⟩
     | none =>
       cases h4 : a.tradErr with
-      | some e => left; exact ⟨.cimError e, by simp [h1, h2, h3, h4]⟩
+      | some e => left; exact ⟨.cimError e, by simp [h0, h1, h2, h3, h4]⟩
       | none =>
         rcases stepOpen_cases s {} (openKind a.fam) a.ns a.tradObjs (some (maxOf a.max)) with ⟨e, he⟩ | ⟨_, he⟩ | ⟨_, he⟩
-        · left; exact ⟨e, by simp [h1, h2, h3, h4, he]⟩
-        · right; left; simp [h1, h2, h3, h4, he]
-        · right; right; simp [h1, h2, h3, h4, he]
-  · left; exact ⟨.cimError CIM_ERR_INVALID_NAMESPACE, by simp [h1, h2]⟩
+        · left; exact ⟨e, by simp [h0, h1, h2, h3, h4, he]⟩
+        · right; left; simp [h0, h1, h2, h3, h4, he]
+        · right; right; simp [h0, h1, h2, h3, h4, he]
+  · left; exact ⟨.cimError CIM_ERR_INVALID_NAMESPACE, by simp [h0, h1, h2]⟩
 
 theorem doOpen_eq (c : Conn) (a : Args) (s' : State) (o : Out) (h : srvOpen c.srv a = (s', o)) :
     doOpen c a = ({ c with srv := s', log := c.log ++ [(.open a.fam, outErr o)] }, o) := by
@@ -779,6 +798,39 @@ theorem throwAt_frame (c : Conn) (g : Gen) (e : PyExc) (hd : c.srv.disabled = fa
 theorem setAt_same {α} (f : Nat → α) (i : Nat) (v : α) : setAt f i v i = v := by simp [setAt]
 theorem setAt_other {α} (f : Nat → α) {i j : Nat} (v : α) (h : j ≠ i) : setAt f i v j = f j := by simp [setAt, h]
 
+/-! ### a namespace removal leaves running generators alone -/
+
+theorem nsGone_pulling {ns : Nat} {g : Gen} {a : Args} {p : List Obj} {e : Bool} {x : Option Nat}
+    (h : nsGone ns g = .pulling a p e x) : g = .pulling a p e x := by
+  cases g with
+  | notStarted a' => simp only [nsGone] at h; split at h <;> cases h
+  | pulling _ _ _ _ => exact h
+  | fallback _ => cases h
+  | finished => cases h
+
+theorem nsGone_holds {ns : Nat} {g : Gen} {i : Nat} : holds (nsGone ns g) i ↔ holds g i := by
+  constructor
+  · rintro ⟨a, p, h⟩; exact ⟨a, p, nsGone_pulling h⟩
+  · rintro ⟨a, p, rfl⟩; exact ⟨a, p, rfl⟩
+
+theorem nsGone_good {ns : Nat} {g : Gen} (h : GoodGen g) : GoodGen (nsGone ns g) :=
+  fun a p e x hg => h a p e x (nsGone_pulling hg)
+
+theorem nsGone_finished (ns : Nat) : nsGone ns .finished = .finished := rfl
+
+theorem nsGone_notStarted {ns : Nat} {g : Gen} {a : Args} (h : nsGone ns g = .notStarted a) :
+    g = .notStarted a ∨ ∃ a', g = .notStarted a' ∧ a'.fam ≠ .query ∧
+      a = { a' with tradErr := some CIM_ERR_INVALID_NAMESPACE, tradObjs := [] } := by
+  cases g with
+  | notStarted a' =>
+    simp only [nsGone] at h
+    split at h
+    · rename_i hc; cases h; exact Or.inr ⟨a', rfl, hc.2, rfl⟩
+    · exact Or.inl h
+  | pulling _ _ _ _ => cases h
+  | fallback _ => cases h
+  | finished => cases h
+
 /-! ### only documented exceptions -/
 
 /-- the exception classes the Iter methods are documented to raise -/
@@ -836,14 +888,16 @@ theorem stepOpen_err_doc (s : State) (k : Kind) (ns : Nat) (objs : List Obj) (m 
 theorem srvOpen_err_doc (s : State) (a : Args) (e : PyExc) (h : (srvOpen s a).2 = .err e) : Documented e := by
   unfold srvOpen at h
   split at h
-  · simp at h; exact Or.inr (Or.inr ⟨_, h.symm⟩)
+  · simp only [Out.err.injEq] at h; exact Or.inr (Or.inl h.symm)
   · split at h
     · simp at h; exact Or.inr (Or.inr ⟨_, h.symm⟩)
     · split at h
       · simp at h; exact Or.inr (Or.inr ⟨_, h.symm⟩)
       · split at h
         · simp at h; exact Or.inr (Or.inr ⟨_, h.symm⟩)
-        · exact stepOpen_err_doc _ _ _ _ _ _ h
+        · split at h
+          · simp at h; exact Or.inr (Or.inr ⟨_, h.symm⟩)
+          · exact stepOpen_err_doc _ _ _ _ _ _ h
 
 theorem validateMax_doc (m : IntArg) (e : PyExc) (h : validateMax m = some e) : Documented e := by
   cases m with
@@ -1017,13 +1071,15 @@ theorem srvOpen_traderr (s : State) (a : Args) (code : Nat) (h : a.tradErr = som
     ∃ e, srvOpen s a = (s, .err e) ∧ Documented e := by
   unfold srvOpen
   split
-  · exact ⟨_, rfl, Or.inr (Or.inr ⟨_, rfl⟩)⟩
+  · exact ⟨_, rfl, Or.inr (Or.inl rfl)⟩
   · split
     · exact ⟨_, rfl, Or.inr (Or.inr ⟨_, rfl⟩)⟩
     · split
       · exact ⟨_, rfl, Or.inr (Or.inr ⟨_, rfl⟩)⟩
-      · simp only [h]
-        exact ⟨_, rfl, Or.inr (Or.inr ⟨_, rfl⟩)⟩
+      · split
+        · exact ⟨_, rfl, Or.inr (Or.inr ⟨_, rfl⟩)⟩
+        · simp only [h]
+          exact ⟨_, rfl, Or.inr (Or.inr ⟨_, rfl⟩)⟩
 
 /-- a call whose traditional operation fails never yields: the first `next()` raises, nothing is left on
     the server -/
@@ -1120,7 +1176,7 @@ theorem step_res (w : World) (hg : ∀ j, GoodGen (w.gens j)) (ev : Ev) (ha : Ca
     have h := throwAt_res w.conn (w.gens g) e
     exact ⟨h.1, upd _ _ h.2⟩
   | setDisabled b => exact ⟨trivial, hg⟩
-  | removeNs n => exact ⟨trivial, hg⟩
+  | removeNs n => exact ⟨trivial, fun j => nsGone_good (hg j)⟩
 
 theorem run_res : ∀ (evs : List Ev) (w : World), (∀ j, GoodGen (w.gens j)) → (∀ ev ∈ evs, CallOk ev) →
     ∀ p ∈ evs.zip (runW w evs).2, ResOk (thrown p.1) p.2 := by
@@ -1226,7 +1282,9 @@ theorem hinv_step {w : World} (ev : Ev) (h : HInv w) (ha : Allowed ev) : HInv (s
     have hb : b = false := ha
     subst hb
     exact ⟨h.owned, rfl, h.good, h.beyond⟩
-  | removeNs n => exact ⟨h.owned, h.enabled, h.good, h.beyond⟩
+  | removeNs n =>
+    exact ⟨fun x hx => by obtain ⟨j, hj⟩ := h.owned x hx; exact ⟨j, nsGone_holds.mpr hj⟩, h.enabled,
+      fun j => nsGone_good (h.good j), fun j hj => by show nsGone n (w.gens j) = .finished; rw [h.beyond j hj]; rfl⟩
 
 theorem hinv_run : ∀ (evs : List Ev) {w : World}, HInv w → (∀ ev ∈ evs, Allowed ev) → HInv (runW w evs).1 := by
   intro evs
@@ -1239,38 +1297,19 @@ theorem hinv_run : ∀ (evs : List Ev) {w : World}, HInv w → (∀ ev ∈ evs, 
 /-! ### the server invariant of C14 along Iter histories -/
 
 theorem srvOpen_inv (s : State) (a : Args) (h : Inv s) : Inv (srvOpen s a).1 := by
-  rcases srvOpen_cases s a with ⟨e, he⟩ | he | he
-  · rw [he]; exact h
-  · rw [he]; exact h
-  · have := inv_step (.open {} (openKind a.fam) a.ns a.tradObjs (some (maxOf a.max))) h
-    simp only [Pywbem.Model.Pull.step] at this
-    rcases stepOpen_cases s {} (openKind a.fam) a.ns a.tradObjs (some (maxOf a.max)) with ⟨e, hs⟩ | ⟨hle, hs⟩ | ⟨hgt, hs⟩
-    · rw [he]; rw [hs] at this
-      -- srvOpen opened a context, stepOpen did not: impossible, but Inv of the opened state follows anyway
-      exact absurd he (by
-        intro he'
-        unfold srvOpen at he'
-        split at he'
-        · simp at he'
-        · split at he'
-          · simp at he'
-          · split at he'
-            · simp at he'
-            · split at he'
-              · simp at he'
-              · rw [hs] at he'; simp at he')
-    · exfalso
-      unfold srvOpen at he
-      split at he
-      · simp at he
-      · split at he
-        · simp at he
-        · split at he
-          · simp at he
-          · split at he
-            · simp at he
-            · rw [hs] at he; simp at he
-    · rw [he]; rw [hs] at this; exact this
+  unfold srvOpen
+  split
+  · exact h
+  · split
+    · exact h
+    · split
+      · exact h
+      · split
+        · exact h
+        · split
+          · exact h
+          · have := inv_step (.open {} (openKind a.fam) a.ns a.tradObjs (some (maxOf a.max))) h
+            simpa [Pywbem.Model.Pull.step] using this
 
 theorem stepPull_inv (s : State) (k : Kind) (ctx : Option Nat) (m : Option Int) (h : Inv s) :
     Inv (stepPull s k ctx m).1 := by
@@ -1396,7 +1435,20 @@ theorem srvOpen_batch_enabled (s : State) (a : Args) (objs : List Obj) (eos : Bo
   unfold srvOpen at h
   split at h
   · simp at h
-  · rename_i hd; simpa using hd
+  · split at h
+    · simp at h
+    · rename_i hd; simpa using hd
+
+theorem srvOpen_batch_ns (s : State) (a : Args) (objs : List Obj) (eos : Bool) (ctx : Option Nat)
+    (h : (srvOpen s a).2 = .batch objs eos ctx) : a.ns ∈ s.nss := by
+  unfold srvOpen at h
+  split at h
+  · simp at h
+  · split at h
+    · simp at h
+    · split at h
+      · simp at h
+      · rename_i hns; simpa using hns
 
 theorem stepOpen_err_enabled (s : State) (k : Kind) (ns : Nat) (objs : List Obj) (m : Option Int) (e : PyExc)
     (hd : s.disabled = false) (h : (stepOpen s {} k ns objs m).2 = .err e) :
@@ -1417,13 +1469,15 @@ theorem srvOpen_learn_enabled (s : State) (a : Args) (code : Nat) (hd : s.disabl
     a.tradErr = some code := by
   have hc := (learn_iff _ _).mp hl
   unfold srvOpen at h
+  split at h
+  · simp at h
   simp only [hd, Bool.false_eq_true, if_false] at h
   split at h
   · simp [CIM_ERR_INVALID_NAMESPACE] at h; omega
   · split at h
     · rename_i e he
       simp at h
-      unfold openParamErr at he
+      unfold serverParamErr at he
       split at he
       · simp [CIM_ERR_INVALID_PARAMETER] at he; omega
       · split at he
@@ -1791,7 +1845,17 @@ theorem steady_step {u : Option Bool} {d : Bool} {w : World} (ev : Ev) (h : Stea
     have hb : b = d := ha
     subst hb
     exact ⟨rfl, h.ff, h.pt, h.calls, ⟨h.inv.uniq, h.inv.below, h.inv.nonempty⟩⟩
-  | removeNs n => exact ⟨h.dis, h.ff, h.pt, h.calls, ⟨h.inv.uniq, h.inv.below, h.inv.nonempty⟩⟩
+  | removeNs n =>
+    refine ⟨h.dis, h.ff, fun j a p e x hj => h.pt j a p e x (nsGone_pulling hj), fun j a hj => ?_,
+      ⟨h.inv.uniq, h.inv.below, h.inv.nonempty⟩⟩
+    rcases nsGone_notStarted hj with hj' | ⟨a', hj', _, rfl⟩
+    · exact h.calls j a hj'
+    · intro code hc
+      simp only [Option.some.injEq] at hc
+      subst hc
+      cases hl : isLearnCode a'.fam CIM_ERR_INVALID_NAMESPACE with
+      | false => rfl
+      | true => rcases (learn_iff _ _).mp hl with e | e <;> simp [CIM_ERR_INVALID_NAMESPACE] at e
 
 theorem steady_run {u : Option Bool} {d : Bool} : ∀ (evs : List Ev) {w : World}, Steady u d w →
     (∀ ev ∈ evs, SteadyEv d ev) → Steady u d (runW w evs).1 := by
@@ -1845,9 +1909,10 @@ theorem pull_path_spec (c : Conn) (a : Args) (k : Nat)
       · simp only []; rw [henv.1, hfl]; exact hflag
 
 /-- when is the traditional tail used: flag False, or flag None and the server refuses Open… with
-    CIM_ERR_NOT_SUPPORTED (which switches the flag to False) -/
+    CIM_ERR_NOT_SUPPORTED (which switches the flag to False) — for which the Open request must get past the
+    client-side type check of its pull-only arguments -/
 def UsesFallback (c : Conn) (a : Args) : Prop :=
-  c.flags a.fam = some false ∨ (c.flags a.fam = none ∧ c.srv.disabled = true)
+  c.flags a.fam = some false ∨ (c.flags a.fam = none ∧ c.srv.disabled = true ∧ typeBad a = false)
 
 theorem fallback_spec (c : Conn) (a : Args) (k : Nat)
     (hv : validate a = none) (hu : UsesFallback c a) (hr : fallbackReject a = false) (ht : a.tradErr = none) :
@@ -1859,11 +1924,11 @@ theorem fallback_spec (c : Conn) (a : Args) (k : Nat)
   | zero => simp [outcome, specOf, takeN]
   | succ k =>
     have key : ∃ c', start c a = yieldFrom c' (fallbackItems a) ∧ c'.srv = c.srv ∧ c'.flags a.fam = some false := by
-      rcases hu with hf | ⟨hf, hd⟩
+      rcases hu with hf | ⟨hf, hd, htb⟩
       · exact ⟨afterTrad c a, by rw [start_flag_false hv hf, fallbackStart_ok hf hr ht], rfl, hf⟩
       · have hf' : (afterLearn c a CIM_ERR_NOT_SUPPORTED).flags a.fam = some false := by simp [afterLearn, setFlag]
         exact ⟨afterTrad (afterLearn c a CIM_ERR_NOT_SUPPORTED) a,
-          by rw [start_learn hv hf hd, fallbackStart_ok hf' hr ht], rfl, hf'⟩
+          by rw [start_learn hv hf hd htb, fallbackStart_ok hf' hr ht], rfl, hf'⟩
     obtain ⟨c', hs, hsrv, hfl⟩ := key
     have hn : next c (.notStarted a) = next c' (.fallback (fallbackItems a)) := by simp [next, hs]
     unfold outcome
@@ -1894,17 +1959,31 @@ theorem fails_outcome {c : Conn} {a : Args} (h : Fails c a) (k : Nat) :
 theorem srvOpen_fails (s : State) (a : Args)
     (h : s.disabled = true ∨ a.ns ∉ s.nss ∨ openParamErr a ≠ none ∨ a.tradErr ≠ none) :
     ∃ e, srvOpen s a = (s, .err e) := by
-  unfold srvOpen
-  by_cases h1 : s.disabled = true
-  · exact ⟨.cimError CIM_ERR_NOT_SUPPORTED, by simp [h1]⟩
-  by_cases h2 : a.ns ∈ s.nss
-  · cases h3 : openParamErr a with
-    | some e => exact ⟨.cimError e, by simp [h1, h2, h3]⟩
-    | none =>
-      cases h4 : a.tradErr with
-      | some e => exact ⟨.cimError e, by simp [h1, h2, h3, h4]⟩
-      | none => rcases h with h | h | h | h <;> simp_all
-  · exact ⟨.cimError CIM_ERR_INVALID_NAMESPACE, by simp [h1, h2]⟩
+  rcases srvOpen_cases s a with he | he | he
+  · exact he
+  all_goals
+    exfalso
+    have hd := srvOpen_batch_enabled s a _ _ _ (by rw [he])
+    have hns := srvOpen_batch_ns s a _ _ _ (by rw [he])
+    have hok : openParamErr a = none ∧ a.tradErr = none := by
+      unfold srvOpen at he
+      cases h0 : typeBad a with
+      | true => simp [h0] at he
+      | false =>
+        simp only [h0, hd, Bool.false_eq_true, if_false] at he
+        have : (!s.nss.contains a.ns) = false := by simp [hns]
+        simp only [this, Bool.false_eq_true, if_false] at he
+        cases h3 : serverParamErr a with
+        | some e => simp [h3] at he
+        | none =>
+          cases h4 : a.tradErr with
+          | some e => simp [h3, h4] at he
+          | none => exact ⟨by simp [openParamErr, h0, h3], rfl⟩
+    rcases h with h | h | h | h
+    · rw [hd] at h; cases h
+    · exact h hns
+    · exact h hok.1
+    · exact h hok.2
 
 /-- pull path, server with pull: if Open… is refused for whatever reason, the first `next()` raises -/
 theorem open_refused_fails (c : Conn) (a : Args) (hv : validate a = none) (hu : usePull (c.flags a.fam) = true)
@@ -1996,7 +2075,7 @@ theorem classify (c : Conn) (a : Args) : PullWay c a ∨ FbWay c a ∨ Fails c a
     flags are what `FF` allows, a call that succeeds with nothing learned (all flags at the configured
     value) has the same outcome -/
 theorem learned_equiv (c : Conn) (a : Args) (u : Option Bool) (hinv : Inv c.srv) (hq : a.fam ≠ .query)
-    (hff : FF u c.srv.disabled c.flags) (k : Nat)
+    (hfl : c.flags a.fam = u ∨ (u = none ∧ c.flags a.fam = some (!c.srv.disabled))) (k : Nat)
     (hok : ∀ e, (outcome { c with flags := fun _ => u } a k).2 ≠ some (.raise e)) :
     outcome c a k = outcome { c with flags := fun _ => u } a k := by
   cases k with
@@ -2004,14 +2083,14 @@ theorem learned_equiv (c : Conn) (a : Args) (u : Option Bool) (hinv : Inv c.srv)
   | succ k =>
     rcases classify { c with flags := fun _ => u } a with ⟨hv, hu, hd, hns, hp, ht⟩ | ⟨hv, hu, hr, ht⟩ | hfail
     · have hu' : usePull (c.flags a.fam) = true := by
-        rcases hff a.fam with h | ⟨_, h⟩
+        rcases hfl with h | ⟨_, h⟩
         · rw [h]; exact hu
         · have hd' : c.srv.disabled = false := hd
           rw [h, hd']; simp [usePull]
       rw [(pull_path_spec c a (k + 1) hv hu' hd hns hp ht hinv hq).1,
         (pull_path_spec { c with flags := fun _ => u } a (k + 1) hv hu hd hns hp ht hinv hq).1]
     · have hu' : UsesFallback c a := by
-        rcases hff a.fam with h | ⟨hnone, h⟩
+        rcases hfl with h | ⟨hnone, h⟩
         · rcases hu with h1 | ⟨h1, h2⟩
           · exact Or.inl (by rw [h]; exact h1)
           · exact Or.inr ⟨by rw [h]; exact h1, h2⟩
@@ -2080,7 +2159,7 @@ theorem pt_step {w : World} (ev : Ev) (h : PT w) : PT (stepW w ev).1 := by
     · exact absurd hp (handleErr_notPulling _ _ _ _ _ _ _ _ _)
     · cases hp
   | setDisabled b => exact h
-  | removeNs n => exact h
+  | removeNs n => exact fun j a p e x hj => h j a p e x (nsGone_pulling hj)
 
 theorem pt_run : ∀ (evs : List Ev) {w : World}, PT w → PT (runW w evs).1 := by
   intro evs
@@ -2435,15 +2514,6 @@ theorem own_handleErr_start (c : Conn) (a : Args) (e : PyExc) (trad comp : List 
     exact own_fallbackStart _ a trad comp
   · simp only [finallyClose_eos]
     exact ⟨List.nil_prefix, fun h => by cases h⟩
-
-theorem srvOpen_batch_ns (s : State) (a : Args) (objs : List Obj) (eos : Bool) (ctx : Option Nat)
-    (h : (srvOpen s a).2 = .batch objs eos ctx) : a.ns ∈ s.nss := by
-  unfold srvOpen at h
-  split at h
-  · simp at h
-  · split at h
-    · simp at h
-    · rename_i hns; simpa using hns
 
 theorem start_eq_advance (c : Conn) (a : Args) (s' : State) (objs : List Obj) (eos : Bool) (ctx : Option Nat)
     (hv : validate a = none) (hu : usePull (c.flags a.fam) = true)
@@ -2868,5 +2938,472 @@ theorem runG_world (w : World) (gh : Ghost) (evs : List Ev) : (runG w gh evs).1 
   induction evs generalizing w gh with
   | nil => rfl
   | cons ev evs ih => simp only [runG, runW]; exact ih _ _
+
+/-! ### the C14 server invariant along every Iter history -/
+
+theorem drain_inv : ∀ (k : Nat) (c : Conn) (g : Gen), Inv c.srv → Inv (drain c g k).1.srv := by
+  intro k
+  induction k with
+  | zero => intro c g h; exact h
+  | succ k ih =>
+    intro c g h
+    unfold drain
+    have hn := next_inv c g h
+    split
+    · rename_i c' g' o heq
+      rw [heq] at hn
+      exact ih c' g' hn
+    · rename_i c' g' r hne heq
+      rw [heq] at hn
+      exact hn
+
+theorem callEager_inv (c : Conn) (a : Args) (h : Inv c.srv) : Inv (callEager c a).1.srv := by
+  unfold callEager
+  have := drain_inv (a.tradObjs.length + 1) c (.notStarted a) h
+  simp only []
+  split <;> exact this
+
+theorem stepW_inv (w : World) (ev : Ev) (h : Inv w.conn.srv) : Inv (stepW w ev).1.conn.srv := by
+  cases ev with
+  | call a =>
+    simp only [stepW]
+    split
+    · exact h
+    · exact callEager_inv _ _ h
+  | next g => exact next_inv _ _ h
+  | close g => exact close_inv _ _ h
+  | drop g => exact close_inv _ _ h
+  | throw g e => exact throwAt_inv _ _ _ h
+  | setDisabled b => exact ⟨h.uniq, h.below, h.nonempty⟩
+  | removeNs n => exact ⟨h.uniq, h.below, h.nonempty⟩
+
+theorem runW_inv : ∀ (evs : List Ev) (w : World), Inv w.conn.srv → Inv (runW w evs).1.conn.srv := by
+  intro evs
+  induction evs with
+  | nil => intro w h; exact h
+  | cons ev evs ih => intro w h; exact ih _ (stepW_inv w ev h)
+
+/-! ### what a learned flag can change, for a server that toggles at will -/
+
+theorem outcome_zero (c : Conn) (a : Args) : outcome c a 0 = ([], none) := by simp [outcome, takeN]
+
+theorem fails_outcome_exact {c : Conn} {a : Args} {e : PyExc} (h : (next c (.notStarted a)).2.2 = .raise e)
+    (k : Nat) : outcome c a (k + 1) = ([], some (.raise e)) := by
+  have := takeN_raise h k
+  simp only [outcome]; rw [this.1, this.2]
+
+/-- the connection `c` with nothing learned (configured with `use_pull_operations=None`) -/
+def unlearned (c : Conn) : Conn := { c with flags := fun _ => none }
+
+/-- **Exactly two ways a learned flag hurts.**  Any connection state (reachable by any history: the server may have
+    toggled its capability any number of times), any call that succeeds within `k` steps on the same connection with
+    nothing learned: on the used connection the call
+    (1) has the same outcome, or
+    (2) [stale False, server has pull again, no pull-only argument] yields the same traditional objects through the
+        fallback (completed paths) instead of the pull path, or
+    (3) [stale False, server has pull again, FilterQuery/ContinueOnError] raises ValueError at the first `next()`
+        — known finding KF1, or
+    (4) [stale True, server lost pull] raises CIM_ERR_NOT_SUPPORTED at the first `next()` — known finding KF2. -/
+theorem learned_dichotomy (c : Conn) (a : Args) (k : Nat) (hinv : Inv c.srv) (hq : a.fam ≠ .query)
+    (hok : ∀ e, (outcome (unlearned c) a k).2 ≠ some (.raise e)) :
+    outcome c a k = outcome (unlearned c) a k ∨
+    (c.flags a.fam = some false ∧ c.srv.disabled = false ∧ fallbackReject a = false ∧
+      outcome c a k = specOf (fallbackItems a) k ∧ outcome (unlearned c) a k = specOf a.tradObjs k) ∨
+    (c.flags a.fam = some false ∧ c.srv.disabled = false ∧ fallbackReject a = true ∧
+      (k = 0 ∨ outcome c a k = ([], some (.raise .valueError)))) ∨
+    (c.flags a.fam = some true ∧ c.srv.disabled = true ∧
+      (k = 0 ∨ outcome c a k = ([], some (.raise (.cimError CIM_ERR_NOT_SUPPORTED))))) := by
+  cases k with
+  | zero => left; rw [outcome_zero, outcome_zero]
+  | succ k =>
+    cases hf : c.flags a.fam with
+    | none => exact Or.inl (learned_equiv c a none hinv hq (Or.inl hf) (k + 1) hok)
+    | some b =>
+      by_cases hb : b = !c.srv.disabled
+      · exact Or.inl (learned_equiv c a none hinv hq (Or.inr ⟨rfl, by rw [hf, hb]⟩) (k + 1) hok)
+      · cases b with
+        | true =>
+          have hd : c.srv.disabled = true := by
+            cases h : c.srv.disabled with
+            | true => rfl
+            | false => rw [h] at hb; simp at hb
+          cases hv : validate a with
+          | some e =>
+            obtain ⟨e', he'⟩ := fails_outcome (validate_fails (unlearned c) a e hv) k
+            exact absurd he' (hok e')
+          | none =>
+            refine Or.inr (Or.inr (Or.inr ⟨rfl, hd, Or.inr ?_⟩))
+            apply fails_outcome_exact
+            simp [next, start, hv, hf, usePull, doOpen, srvOpen, hd, handleErr, learns, finallyClose]
+        | false =>
+          have hd : c.srv.disabled = false := by
+            cases h : c.srv.disabled with
+            | false => rfl
+            | true => rw [h] at hb; simp at hb
+          rcases classify (unlearned c) a with ⟨hv, hu, _, hns, hp, ht⟩ | ⟨_, hu, _, _⟩ | hfail
+          · by_cases hr : fallbackReject a = true
+            · refine Or.inr (Or.inr (Or.inl ⟨rfl, hd, hr, Or.inr ?_⟩))
+              apply fails_outcome_exact
+              simp [next, start_flag_false hv hf, fallbackStart_reject hf hr]
+            · have hr' : fallbackReject a = false := by simpa using hr
+              exact Or.inr (Or.inl ⟨rfl, hd, hr',
+                (fallback_spec c a (k + 1) hv (Or.inl hf) hr' ht).1,
+                (pull_path_spec (unlearned c) a (k + 1) hv hu hd hns hp ht hinv hq).1⟩)
+          · -- the unlearned connection cannot be on the fallback: its flag is None and the server has pull
+            rcases hu with h | ⟨_, h⟩
+            · simp [unlearned] at h
+            · have : c.srv.disabled = true := h
+              rw [hd] at this; cases this
+          · obtain ⟨e', he'⟩ := fails_outcome hfail k
+            exact absurd he' (hok e')
+
+/-! ### no context leak, for a server that toggles at will -/
+
+/-- the server answered CIM_ERR_NOT_SUPPORTED to a CloseEnumeration of context `i` (request log) -/
+def Refused (c : Conn) (i : Nat) : Prop :=
+  (SrvOp.close (some i), some (PyExc.cimError CIM_ERR_NOT_SUPPORTED)) ∈ c.log
+
+def LogGrows (c c' : Conn) : Prop := ∀ e ∈ c.log, e ∈ c'.log
+
+theorem LogGrows.refl (c : Conn) : LogGrows c c := fun _ h => h
+theorem LogGrows.trans {c c' c'' : Conn} (h1 : LogGrows c c') (h2 : LogGrows c' c'') : LogGrows c c'' :=
+  fun e h => h2 e (h1 e h)
+theorem LogGrows.append (c c' : Conn) (l : List (SrvOp × Option PyExc)) (h : c'.log = c.log ++ l) : LogGrows c c' :=
+  fun e he => by rw [h]; exact List.mem_append_left _ he
+theorem Refused.mono {c c' : Conn} {i : Nat} (h : Refused c i) (hl : LogGrows c c') : Refused c' i := hl _ h
+
+theorem finallyClose_table2 (c : Conn) (f : Family) (eos : Bool) (ctx : Option Nat) :
+    (∀ x ∈ (finallyClose c f eos ctx).1.srv.ctxs,
+      x ∈ c.srv.ctxs ∧ ((eos = false → ctx ≠ some x.id) ∨ Refused (finallyClose c f eos ctx).1 x.id)) ∧
+    LogGrows c (finallyClose c f eos ctx).1 := by
+  cases eos with
+  | true => rw [finallyClose_eos]; exact ⟨fun x hx => ⟨hx, Or.inl (fun h => by cases h)⟩, LogGrows.refl c⟩
+  | false =>
+    cases ctx with
+    | none =>
+      rw [finallyClose_noctx]
+      exact ⟨fun x hx => ⟨hx, Or.inl (fun _ h => by cases h)⟩, LogGrows.append _ _ _ rfl⟩
+    | some i =>
+      cases hd : c.srv.disabled with
+      | true =>
+        have e : finallyClose c f false (some i) =
+            ({ c with log := c.log ++ [(.close (some i), some (.cimError CIM_ERR_NOT_SUPPORTED))] },
+             some (.cimError CIM_ERR_NOT_SUPPORTED)) := by
+          simp [finallyClose, row_closes, doClose, stepClose, hd, outErr]
+        rw [e]
+        refine ⟨fun x hx => ⟨hx, ?_⟩, LogGrows.append _ _ _ rfl⟩
+        by_cases hxi : x.id = i
+        · right; subst hxi; simp [Refused]
+        · left; intro _ h; simp at h; exact hxi h.symm
+      | false =>
+        have h := finallyClose_table c f false (some i) hd
+        cases hl : lookup c.srv.ctxs i with
+        | none =>
+          rw [finallyClose_missing c f i hd hl] at h ⊢
+          exact ⟨fun x hx => ⟨(h.1 x hx).1, Or.inl (h.1 x hx).2⟩, LogGrows.append _ _ _ rfl⟩
+        | some y =>
+          rw [finallyClose_found c f i y hd hl] at h ⊢
+          exact ⟨fun x hx => ⟨(h.1 x hx).1, Or.inl (h.1 x hx).2⟩, LogGrows.append _ _ _ rfl⟩
+
+theorem fallbackStart_logGrows (c : Conn) (a : Args) : LogGrows c (fallbackStart c a).1 := by
+  unfold fallbackStart
+  split
+  · exact LogGrows.refl c
+  · split
+    · exact LogGrows.refl c
+    · simp only []
+      split
+      · exact LogGrows.append _ _ _ rfl
+      · unfold yieldFrom; split <;> exact LogGrows.append _ _ _ rfl
+
+theorem handleErr_table2 (c : Conn) (a : Args) (e : PyExc) (eos : Bool) (ctx : Option Nat) :
+    (∀ x ∈ (handleErr c a e eos ctx).1.srv.ctxs,
+      x ∈ c.srv.ctxs ∧ ((eos = false → ctx ≠ some x.id) ∨ Refused (handleErr c a e eos ctx).1 x.id)) ∧
+    LogGrows c (handleErr c a e eos ctx).1 := by
+  unfold handleErr
+  split
+  · simp only []
+    have h := finallyClose_table2 { c with flags := setFlag c.flags a.fam (some false) } a.fam eos ctx
+    split
+    · exact h
+    · have hs := fallbackStart_srv (finallyClose { c with flags := setFlag c.flags a.fam (some false) } a.fam eos ctx).1 a
+      have hg := fallbackStart_logGrows (finallyClose { c with flags := setFlag c.flags a.fam (some false) } a.fam eos ctx).1 a
+      refine ⟨fun x hx => ?_, LogGrows.trans h.2 hg⟩
+      rw [hs.1] at hx
+      rcases h.1 x hx with ⟨h1, h2 | h2⟩
+      · exact ⟨h1, Or.inl h2⟩
+      · exact ⟨h1, Or.inr (h2.mono hg)⟩
+  · simp only []
+    have h := finallyClose_table2 c a.fam eos ctx
+    split <;> exact h
+
+/-- like `Frame`, without assuming that the server supports pull: a context may also stay because its
+    CloseEnumeration was refused -/
+def Frame2 (c : Conn) (g : Gen) (c' : Conn) (g' : Gen) : Prop :=
+  (∀ x ∈ c'.srv.ctxs, holds g' x.id ∨ ((∃ y ∈ c.srv.ctxs, y.id = x.id) ∧ ¬ holds g x.id) ∨ Refused c' x.id) ∧
+  LogGrows c c' ∧ GoodGen g'
+
+theorem frame2_same (c : Conn) (g g' : Gen) (hn : ∀ i, ¬ holds g i) (hg : GoodGen g') : Frame2 c g c g' :=
+  ⟨fun x hx => Or.inr (Or.inl ⟨⟨x, hx, rfl⟩, hn _⟩), LogGrows.refl c, hg⟩
+
+theorem doPull_logGrows (c : Conn) (a : Args) (ctx : Option Nat) : LogGrows c (doPull c a ctx).1 :=
+  LogGrows.append _ _ _ rfl
+theorem doOpen_logGrows (c : Conn) (a : Args) : LogGrows c (doOpen c a).1 := LogGrows.append _ _ _ rfl
+
+theorem advance_frame2 (c : Conn) (a : Args) (p : List Obj) (eos : Bool) (ctx : Option Nat)
+    (hm : 0 < maxOf a.max) :
+    Frame2 c (.pulling a p eos ctx) (advance c a p eos ctx).1 (advance c a p eos ctx).2.1 := by
+  cases p with
+  | cons o rest =>
+    simp only [advance]
+    refine ⟨fun x hx => ?_, LogGrows.refl c, fun _ _ _ _ h => by cases h; exact hm⟩
+    by_cases hh : holds (.pulling a rest eos ctx) x.id
+    · exact Or.inl hh
+    · exact Or.inr (Or.inl ⟨⟨x, hx, rfl⟩, by rw [holds_pulling_iff] at hh ⊢; exact hh⟩)
+  | nil =>
+    cases eos with
+    | true =>
+      simp only [advance, if_true]
+      exact frame2_same c _ _ (by intro i; rw [holds_pulling_iff]; simp) (fun _ _ _ _ h => by cases h)
+    | false =>
+      cases ctx with
+      | none =>
+        have e := doPull_eq c a none c.srv (.err .valueError) (by simp [stepPull])
+        simp only [advance, Bool.false_eq_true, if_false, e]
+        have h := handleErr_table2 { c with srv := c.srv, log := c.log ++ [(.pull a.fam, outErr (.err .valueError))] }
+          a .valueError false none
+        refine ⟨fun x hx => ?_, LogGrows.trans (LogGrows.append _ _ _ rfl) h.2, (handleErr_notPulling _ _ _ _ _).good⟩
+        exact Or.inr (Or.inl ⟨⟨x, (h.1 x hx).1, rfl⟩, by rw [holds_pulling_iff]; simp⟩)
+      | some i =>
+        have hnot : ∀ x : Ctx, x.id ≠ i → ¬ holds (.pulling a [] false (some i)) x.id := by
+          intro x hx; rw [holds_pulling_iff]; intro h; simp at h; exact hx h.symm
+        rcases stepPull_cases c.srv (pullKind a.fam) i (some (maxOf a.max)) with ⟨e, he⟩ | ⟨y, hr, hle, he⟩ | ⟨y, hr, hgt, he⟩
+        · have e' := doPull_eq c a (some i) _ _ he
+          simp only [advance, Bool.false_eq_true, if_false, e']
+          have h := handleErr_table2 { c with srv := c.srv, log := c.log ++ [(.pull a.fam, outErr (.err e))] }
+            a e false (some i)
+          refine ⟨fun x hx => ?_, LogGrows.trans (LogGrows.append _ _ _ rfl) h.2, (handleErr_notPulling _ _ _ _ _).good⟩
+          rcases (h.1 x hx).2 with h2 | h2
+          · exact Or.inr (Or.inl ⟨⟨x, (h.1 x hx).1, rfl⟩, hnot x (fun hh => h2 rfl (by rw [hh]))⟩)
+          · exact Or.inr (Or.inr h2)
+        · have e' := doPull_eq c a (some i) _ _ he
+          simp only [advance, Bool.false_eq_true, if_false, e']
+          cases hdta : y.data with
+          | nil =>
+            refine ⟨fun x hx => ?_, LogGrows.append _ _ _ rfl, fun _ _ _ _ h => by cases h⟩
+            have := mem_remove.mp hx
+            exact Or.inr (Or.inl ⟨⟨x, this.1, rfl⟩, hnot x this.2⟩)
+          | cons o rest =>
+            refine ⟨fun x hx => ?_, LogGrows.append _ _ _ rfl, fun _ _ _ _ h => by cases h; exact hm⟩
+            have := mem_remove.mp hx
+            exact Or.inr (Or.inl ⟨⟨x, this.1, rfl⟩, hnot x this.2⟩)
+        · have e' := doPull_eq c a (some i) _ _ he
+          simp only [advance, Bool.false_eq_true, if_false, e']
+          have hne : y.data.take (effMax (some (maxOf a.max))) ≠ [] := by
+            intro e
+            rcases List.take_eq_nil_iff.mp e with e | e
+            · simp [effMax] at e; omega
+            · rw [e] at hgt; simp at hgt
+          cases hdta : y.data.take (effMax (some (maxOf a.max))) with
+          | nil => exact absurd hdta hne
+          | cons o rest =>
+            refine ⟨fun x hx => ?_, LogGrows.append _ _ _ rfl, fun _ _ _ _ h => by cases h; exact hm⟩
+            obtain ⟨z, hz, rfl⟩ := mem_replaceData.mp hx
+            by_cases hzi : z.id = i
+            · left; rw [holds_pulling_iff]; simp [hzi]
+            · right; left
+              have : (z.id == i) = false := by simp [hzi]
+              simp only [this]
+              exact ⟨⟨z, hz, rfl⟩, hnot z hzi⟩
+
+theorem start_frame2 (c : Conn) (a : Args) : Frame2 c (.notStarted a) (start c a).1 (start c a).2.1 := by
+  cases hv : validate a with
+  | some e =>
+    have : start c a = (c, .finished, .raise e) := by simp [start, hv]
+    rw [this]; exact frame2_same c _ _ (notStarted_not_holds a) (fun _ _ _ _ h => by cases h)
+  | none =>
+    have hm := maxPos_of_validate hv
+    by_cases hu : usePull (c.flags a.fam) = true
+    · rcases srvOpen_cases c.srv a with ⟨e, he⟩ | he | he
+      · rw [start_eq_handleErr c a e hv hu he]
+        have h := handleErr_table2 (afterOpenErr c a e) a e true none
+        refine ⟨fun x hx => ?_, LogGrows.trans (LogGrows.append _ _ _ rfl) h.2, (handleErr_notPulling _ _ _ _ _).good⟩
+        exact Or.inr (Or.inl ⟨⟨x, (h.1 x hx).1, rfl⟩, notStarted_not_holds _ _⟩)
+      · rw [start_eq_advance c a _ _ _ _ hv hu he]
+        have h := advance_frame2 (afterOpen c a c.srv) a a.tradObjs true none hm
+        refine ⟨fun x hx => ?_, LogGrows.trans (LogGrows.append _ _ _ rfl) h.2.1, h.2.2⟩
+        rcases h.1 x hx with hh | ⟨⟨y, hy, hyx⟩, _⟩ | hh
+        · exact Or.inl hh
+        · exact Or.inr (Or.inl ⟨⟨y, hy, hyx⟩, notStarted_not_holds _ _⟩)
+        · exact Or.inr (Or.inr hh)
+      · rw [start_eq_advance c a _ _ _ _ hv hu he]
+        have h := advance_frame2 (afterOpen c a (openedState c.srv (openKind a.fam) a.ns a.tradObjs (some (maxOf a.max))))
+          a (a.tradObjs.take (effMax (some (maxOf a.max)))) false (some c.srv.nextId) hm
+        refine ⟨fun x hx => ?_, LogGrows.trans (LogGrows.append _ _ _ rfl) h.2.1, h.2.2⟩
+        rcases h.1 x hx with hh | ⟨⟨y, hy, hyx⟩, hnh⟩ | hh
+        · exact Or.inl hh
+        · simp only [afterOpen, openedState, List.mem_append, List.mem_singleton] at hy
+          rcases hy with hy | hy
+          · exact Or.inr (Or.inl ⟨⟨y, hy, hyx⟩, notStarted_not_holds _ _⟩)
+          · exfalso; apply hnh; rw [holds_pulling_iff]; subst hy; simp at hyx; simp [hyx]
+        · exact Or.inr (Or.inr hh)
+    · rw [start_eq_fallback c a hv hu]
+      have h := fallbackStart_srv c a
+      refine ⟨fun x hx => Or.inr (Or.inl ⟨⟨x, ?_, rfl⟩, notStarted_not_holds _ _⟩), fallbackStart_logGrows c a, h.2.good⟩
+      rw [h.1] at hx; exact hx
+
+theorem next_frame2 (c : Conn) (g : Gen) (hg : GoodGen g) : Frame2 c g (next c g).1 (next c g).2.1 := by
+  cases g with
+  | notStarted a => exact start_frame2 c a
+  | pulling a p e x => exact advance_frame2 c a p e x (hg _ _ _ _ rfl)
+  | fallback p =>
+    simp only [next]
+    unfold yieldFrom
+    split
+    · exact frame2_same c _ _ (by rintro i ⟨_, _, h⟩; cases h) (fun _ _ _ _ h => by cases h)
+    · exact frame2_same c _ _ (by rintro i ⟨_, _, h⟩; cases h) (fun _ _ _ _ h => by cases h)
+  | finished =>
+    exact frame2_same c _ _ (by rintro i ⟨_, _, h⟩; cases h) (fun _ _ _ _ h => by cases h)
+
+theorem close_frame2 (c : Conn) (g : Gen) : Frame2 c g (close c g).1 (close c g).2.1 := by
+  rw [close_gen]
+  cases g with
+  | pulling a p e x =>
+    have h := finallyClose_table2 c a.fam e x
+    have hc : (close c (.pulling a p e x)).1 = (finallyClose c a.fam e x).1 := by
+      simp only [close]; split <;> rfl
+    rw [hc]
+    refine ⟨fun y hy => ?_, h.2, fun _ _ _ _ h => by cases h⟩
+    rcases (h.1 y hy).2 with h2 | h2
+    · refine Or.inr (Or.inl ⟨⟨y, (h.1 y hy).1, rfl⟩, ?_⟩)
+      rw [holds_pulling_iff]; rintro ⟨he, hx⟩; exact h2 he hx
+    · exact Or.inr (Or.inr h2)
+  | notStarted a => exact frame2_same c _ _ (by rintro i ⟨_, _, h⟩; cases h) (fun _ _ _ _ h => by cases h)
+  | fallback p => exact frame2_same c _ _ (by rintro i ⟨_, _, h⟩; cases h) (fun _ _ _ _ h => by cases h)
+  | finished => exact frame2_same c _ _ (by rintro i ⟨_, _, h⟩; cases h) (fun _ _ _ _ h => by cases h)
+
+theorem throwAt_frame2 (c : Conn) (g : Gen) (e : PyExc) : Frame2 c g (throwAt c g e).1 (throwAt c g e).2.1 := by
+  cases g with
+  | pulling a p eos x =>
+    have h := handleErr_table2 c a e eos x
+    simp only [throwAt]
+    refine ⟨fun y hy => ?_, h.2, (handleErr_notPulling _ _ _ _ _).good⟩
+    rcases (h.1 y hy).2 with h2 | h2
+    · refine Or.inr (Or.inl ⟨⟨y, (h.1 y hy).1, rfl⟩, ?_⟩)
+      rw [holds_pulling_iff]; rintro ⟨he, hx⟩; exact h2 he hx
+    · exact Or.inr (Or.inr h2)
+  | notStarted a => exact frame2_same c _ _ (by rintro i ⟨_, _, h⟩; cases h) (fun _ _ _ _ h => by cases h)
+  | fallback p => exact frame2_same c _ _ (by rintro i ⟨_, _, h⟩; cases h) (fun _ _ _ _ h => by cases h)
+  | finished => exact frame2_same c _ _ (by rintro i ⟨_, _, h⟩; cases h) (fun _ _ _ _ h => by cases h)
+
+theorem drain_logGrows : ∀ (k : Nat) (c : Conn) (g : Gen), GoodGen g → LogGrows c (drain c g k).1 := by
+  intro k
+  induction k with
+  | zero => intro c g _; exact LogGrows.refl c
+  | succ k ih =>
+    intro c g hg
+    unfold drain
+    have hn := next_frame2 c g hg
+    split
+    · rename_i c' g' o heq
+      rw [heq] at hn
+      exact LogGrows.trans hn.2.1 (ih c' g' hn.2.2)
+    · rename_i c' g' r hne heq
+      rw [heq] at hn
+      exact hn.2.1
+
+theorem callEager_logGrows (c : Conn) (a : Args) : LogGrows c (callEager c a).1 := by
+  unfold callEager
+  have := drain_logGrows (a.tradObjs.length + 1) c (.notStarted a) (fun _ _ _ _ h => by cases h)
+  simp only []
+  split <;> exact this
+
+/-- history invariant for ANY server behaviour: a context on the server is held by a suspended generator, or the
+    server refused to close it -/
+structure HInv2 (w : World) : Prop where
+  owned : ∀ x ∈ w.conn.srv.ctxs, (∃ j, holds (w.gens j) x.id) ∨ Refused w.conn x.id
+  good : ∀ j, GoodGen (w.gens j)
+  beyond : ∀ j, w.n ≤ j → w.gens j = .finished
+
+theorem hinv2_update {w : World} (h : HInv2 w) (g : Nat) (c' : Conn) (g' : Gen)
+    (hf : Frame2 w.conn (w.gens g) c' g') (hfin : w.n ≤ g → g' = .finished) :
+    HInv2 { w with conn := c', gens := setAt w.gens g g' } := by
+  refine ⟨fun x hx => ?_, fun j => ?_, fun j hj => ?_⟩
+  · rcases hf.1 x hx with hh | ⟨⟨y, hy, hyx⟩, hnh⟩ | hh
+    · exact Or.inl ⟨g, by simp only [setAt_same]; exact hh⟩
+    · rcases h.owned y hy with ⟨j, hj⟩ | hr
+      · rw [hyx] at hj
+        have : j ≠ g := by intro e; subst e; exact hnh hj
+        exact Or.inl ⟨j, by simp only [setAt_other _ _ this]; exact hj⟩
+      · rw [hyx] at hr; exact Or.inr (hr.mono hf.2.1)
+    · exact Or.inr hh
+  · by_cases e : j = g
+    · subst e; simp only [setAt_same]; exact hf.2.2
+    · simp only [setAt_other _ _ e]; exact h.good j
+  · by_cases e : j = g
+    · subst e; simp only [setAt_same]; exact hfin hj
+    · simp only [setAt_other _ _ e]; exact h.beyond j hj
+
+theorem hinv2_step {w : World} (ev : Ev) (h : HInv2 w) (ha : CallOk ev) : HInv2 (stepW w ev).1 := by
+  cases ev with
+  | call a =>
+    have fin : ∀ j, (∃ i, holds (w.gens j) i) → j ≠ w.n := by
+      rintro j ⟨i, hj⟩ e; subst e
+      rw [h.beyond _ (Nat.le_refl _)] at hj
+      obtain ⟨_, _, hj⟩ := hj; cases hj
+    by_cases hl : a.fam.row.isLazy = true
+    · simp only [stepW, hl, if_true]
+      refine ⟨fun x hx => ?_, fun j => ?_, fun j hj => ?_⟩
+      · rcases h.owned x hx with ⟨j, hj⟩ | hr
+        · exact Or.inl ⟨j, by simp only [setAt_other _ _ (fin j ⟨_, hj⟩)]; exact hj⟩
+        · exact Or.inr hr
+      · by_cases e : j = w.n
+        · subst e; simp only [setAt_same]; intro _ _ _ _ hh; cases hh
+        · simp only [setAt_other _ _ e]; exact h.good j
+      · have : j ≠ w.n := by simp only [] at hj; omega
+        simp only [setAt_other _ _ this]; exact h.beyond j (by simp only [] at hj; omega)
+    · have hq : a.fam = .query := by
+        by_cases e : a.fam = .query
+        · exact e
+        · exact absurd ((lazy_iff _).mpr e) hl
+      have ht : a.tradErr ≠ none := by
+        rcases ha with h' | h'
+        · exact absurd hq h'
+        · exact h'
+      obtain ⟨code, hcode⟩ := Option.ne_none_iff_exists'.mp ht
+      obtain ⟨e, _, _, hsrv⟩ := callEager_traderr w.conn a code hcode
+      have hlg := callEager_logGrows w.conn a
+      simp only [stepW, hl, Bool.false_eq_true, if_false]
+      refine ⟨fun x hx => ?_, fun j => ?_, fun j hj => ?_⟩
+      · simp only [hsrv] at hx
+        rcases h.owned x hx with ⟨j, hj⟩ | hr
+        · exact Or.inl ⟨j, by simp only [setAt_other _ _ (fin j ⟨_, hj⟩)]; exact hj⟩
+        · exact Or.inr (hr.mono hlg)
+      · by_cases e : j = w.n
+        · subst e; simp only [setAt_same]; intro _ _ _ _ hh; cases hh
+        · simp only [setAt_other _ _ e]; exact h.good j
+      · have : j ≠ w.n := by simp only [] at hj; omega
+        simp only [setAt_other _ _ this]; exact h.beyond j (by simp only [] at hj; omega)
+  | next g =>
+    exact hinv2_update h g _ _ (next_frame2 _ _ (h.good g)) (fun hg => by rw [h.beyond g hg]; rfl)
+  | close g => exact hinv2_update h g _ _ (close_frame2 _ _) (fun _ => close_gen _ _)
+  | drop g => exact hinv2_update h g _ _ (close_frame2 _ _) (fun _ => close_gen _ _)
+  | throw g e =>
+    exact hinv2_update h g _ _ (throwAt_frame2 _ _ e) (fun hg => by rw [h.beyond g hg]; rfl)
+  | setDisabled b => exact ⟨h.owned, h.good, h.beyond⟩
+  | removeNs n =>
+    exact ⟨fun x hx => by
+        rcases h.owned x hx with ⟨j, hj⟩ | hr
+        · exact Or.inl ⟨j, nsGone_holds.mpr hj⟩
+        · exact Or.inr hr,
+      fun j => nsGone_good (h.good j), fun j hj => by show nsGone n (w.gens j) = .finished; rw [h.beyond j hj]; rfl⟩
+
+theorem hinv2_run : ∀ (evs : List Ev) {w : World}, HInv2 w → (∀ ev ∈ evs, CallOk ev) → HInv2 (runW w evs).1 := by
+  intro evs
+  induction evs with
+  | nil => intro w h _; exact h
+  | cons ev evs ih =>
+    intro w h ha
+    exact ih (hinv2_step ev h (ha ev (by simp))) (fun e he => ha e (by simp [he]))
 
 end Proofs.Iter
